@@ -30,7 +30,33 @@ func verifC05Crashed(k int, f func()) (crashed bool) {
 // verifC05Restart opens the database directory with fresh objects (what a
 // restarted process does) and checks it against the two admissible positions.
 func verifC05Restart(w *verifWorld, before, after ltx.Pos, imgBefore, imgAfter [][]byte) {
+	verifC05RestartFile(w, before, after, imgBefore, imgAfter, after.TXID)
+}
+
+// verifNewestIs reports whether the transaction file (minT,maxT) exists and no
+// other transaction file on disk reaches a higher transaction ID.
+func verifNewestIs(db *DB, minT, maxT ltx.TXID) bool {
+	found := false
+	for _, name := range verifLTXNames(db) {
+		lo, hi, err := ltx.ParseFilename(name)
+		if err != nil {
+			continue // temporary files are not transactions
+		}
+		if lo == minT && hi == maxT {
+			found = true
+		} else if hi > maxT {
+			return false
+		}
+	}
+	return found
+}
+
+// verifC05RestartFile: restart and compare with the position named by the
+// newest transaction file: `after` when the file (afterMin, after.TXID) is the
+// newest on disk, `before` otherwise.
+func verifC05RestartFile(w *verifWorld, before, after ltx.Pos, imgBefore, imgAfter [][]byte, afterMin ltx.TXID) {
 	ctx := context.Background()
+	afterIsNewest := verifNewestIs(w.db, afterMin, after.TXID)
 	store2 := NewStore(w.dir, true)
 	store2.Exit = func(code int) { w.exits = append(w.exits, code) }
 	db2 := NewDB(store2, "db", w.db.Path())
@@ -39,7 +65,7 @@ func verifC05Restart(w *verifWorld, before, after ltx.Pos, imgBefore, imgAfter [
 	rt.Check(len(w.exits) == 0, "no fatal exit during restart")
 	// the position named by the newest transaction file
 	newest := before
-	if _, serr := os.Stat(w.db.LTXPath(after.TXID, after.TXID)); serr == nil {
+	if afterIsNewest {
 		newest = after
 	}
 	pos := db2.Pos()
@@ -208,7 +234,7 @@ func VerifC05WAL() {
 func VerifC05Apply() {
 	ctx := context.Background()
 	what := rt.Choose("operation", 3) // 0 incremental apply, 1 snapshot apply, 2 drop
-	w, _ := verifChainN(1, 2) // 2 pages; transaction file 42 holds page 1 only
+	w, _ := verifChainN(1, 2)         // 2 pages; transaction file 42 holds page 1 only
 	db := w.db
 	if what != 2 {
 		w.store.lease = nil // a replica
@@ -225,9 +251,21 @@ func VerifC05Apply() {
 		imgAfter = [][]byte{p1, p2}
 	}
 	after := ltx.Pos{TXID: before.TXID + 1, PostApplyChecksum: verifSpecChecksum(imgAfter)}
+	if what == 1 && rt.Choose("snapshot.behind", 2) == 1 {
+		after.TXID = 40 // the new primary's history is shorter than this node's (it was ahead before the failover)
+	}
 	var file []byte
 	switch what {
 	case 0:
+		if rt.Choose("apply.shrinks", 2) == 1 {
+			// the incoming transaction shrinks the database to one page
+			p1 := rt.Bytes("shrunk1", verifP)
+			verifHeaderPage(p1, 1, false)
+			imgAfter = [][]byte{p1}
+			after.PostApplyChecksum = verifSpecChecksum(imgAfter)
+			file = verifEncodeLTX(ltx.Header{PageSize: verifP, Commit: 1, MinTXID: after.TXID, MaxTXID: after.TXID, PreApplyChecksum: before.PostApplyChecksum, NodeID: 99}, []uint32{1}, imgAfter, after.PostApplyChecksum)
+			break
+		}
 		file = verifEncodeLTX(ltx.Header{PageSize: verifP, Commit: 2, MinTXID: after.TXID, MaxTXID: after.TXID, PreApplyChecksum: before.PostApplyChecksum, NodeID: 99}, []uint32{2}, [][]byte{p2}, after.PostApplyChecksum)
 	case 1:
 		file = verifEncodeLTX(ltx.Header{PageSize: verifP, Commit: 2, MinTXID: 1, MaxTXID: after.TXID, NodeID: 99}, []uint32{1, 2}, imgAfter, after.PostApplyChecksum)
@@ -252,31 +290,8 @@ func VerifC05Apply() {
 	} else {
 		rt.Reach("c05.apply.crash")
 	}
-	// a snapshot file is named 1-<max>: the "newest file" test uses its own name
 	if what == 1 {
-		if _, serr := os.Stat(db.LTXPath(1, after.TXID)); serr == nil {
-			must(os.Rename(db.LTXPath(1, after.TXID), db.LTXPath(1, after.TXID))) // no-op; keeps the model honest about existence
-		}
-	}
-	verifC05RestartNamed(w, before, after, imgBefore, imgAfter, what == 1)
-}
-
-func verifC05RestartNamed(w *verifWorld, before, after ltx.Pos, imgBefore, imgAfter [][]byte, snapshot bool) {
-	if !snapshot {
-		verifC05Restart(w, before, after, imgBefore, imgAfter)
-		return
-	}
-	// for a snapshot the newest file is 1-<max>; mirror it under the name verifC05Restart probes
-	if b, err := os.ReadFile(w.db.LTXPath(1, after.TXID)); err == nil {
-		_ = b
-		store2 := NewStore(w.dir, true)
-		store2.Exit = func(code int) { w.exits = append(w.exits, code) }
-		db2 := NewDB(store2, "db", w.db.Path())
-		rt.Check(db2.Open() == nil, "restart after an interrupted snapshot apply succeeds")
-		rt.Check(len(w.exits) == 0, "no fatal exit during restart")
-		rt.Check(db2.Pos() == after, "snapshot file in place: the position is the snapshot's")
-		verifC01CheckImage(&verifWorld{dir: w.dir, store: store2, db: db2}, imgAfter, "image is exactly the snapshot's")
-		rt.Reach("c05.after")
+		verifC05RestartFile(w, before, after, imgBefore, imgAfter, 1) // a snapshot file is named 1-<max>
 		return
 	}
 	verifC05Restart(w, before, after, imgBefore, imgAfter)
